@@ -1427,6 +1427,7 @@ type condEdge struct {
 	isEqNeq bool
 	binop   *ssa.BinOp
 	viaPhi  bool // cond was reached through a phi of boolean constants and this value: only one side is exact
+	exact   int  // with viaPhi: the successor index on which cond's truth is implied (-1: neither)
 }
 
 func condEdgesOf(f *ssa.Function) []condEdge {
@@ -1442,6 +1443,7 @@ func condEdgesOf(f *ssa.Function) []condEdge {
 		c := ifi.Cond
 		pos := true
 		viaPhi := false
+		exact := -1
 		for hops := 0; hops < 4; hops++ {
 			if u, ok := c.(*ssa.UnOp); ok && u.Op == token.NOT {
 				c = u.X
@@ -1474,13 +1476,25 @@ func condEdgesOf(f *ssa.Function) []condEdge {
 					// allFalse: phi true  => other true (exact on the holds side)
 					// allTrue:  phi false => other false (exact on the fails side)
 					c = other
+					// the If's successor on which the phi has the value the constants exclude
+					side := 0
+					if allTrue {
+						side = 1
+					}
+					if !pos {
+						side = 1 - side
+					}
+					if viaPhi && exact != side {
+						side = -1
+					}
+					exact = side
 					viaPhi = true
 					continue
 				}
 			}
 			break
 		}
-		ce := condEdge{ifi: ifi, cond: c, viaPhi: viaPhi}
+		ce := condEdge{ifi: ifi, cond: c, viaPhi: viaPhi, exact: exact}
 		if bo, ok := c.(*ssa.BinOp); ok {
 			ce.binop = bo
 			if bo.Op == token.NEQ {
